@@ -2,4 +2,466 @@
 import MelModel.Chain
 import MelModel.Lemmas.Counts
 namespace Mel
+
+/-! ### `Outcome` combinators -/
+namespace Outcome
+
+theorem bind_eq_ok {α β} {x : Outcome α} {f : α → Outcome β} {b : β} :
+    x.bind f = .ok b ↔ ∃ a, x = .ok a ∧ f a = .ok b := by
+  cases x <;> simp [bind]
+
+theorem foldlM'_cons {α β} (f : β → α → Outcome β) (b : β) (a : α) (as : List α) :
+    foldlM' f b (a :: as) = (f b a).bind (fun b' => foldlM' f b' as) := by
+  simp only [foldlM', bind]
+
+theorem foldlM'_append {α β} (f : β → α → Outcome β) (b : β) (l₁ l₂ : List α) :
+    foldlM' f b (l₁ ++ l₂) = (foldlM' f b l₁).bind (fun b' => foldlM' f b' l₂) := by
+  induction l₁ generalizing b with
+  | nil => rfl
+  | cons a as ih =>
+    simp only [List.cons_append, foldlM'_cons, ih]
+    cases f b a <;> rfl
+
+/-- an invariant preserved by every successful step holds at the end of a successful fold -/
+theorem foldlM'_inv {α β} (P : β → Prop) {f : β → α → Outcome β} {l : List α} {b r : β}
+    (h : foldlM' f b l = .ok r) (h0 : P b)
+    (hs : ∀ a ∈ l, ∀ b b', P b → f b a = .ok b' → P b') : P r := by
+  induction l generalizing b with
+  | nil =>
+    simp only [foldlM', ok.injEq] at h
+    exact h ▸ h0
+  | cons a as ih =>
+    rw [foldlM'_cons, bind_eq_ok] at h
+    obtain ⟨b', hb', h⟩ := h
+    exact ih h (hs a (by simp) b b' h0 hb') (fun a' ha' => hs a' (by simp [ha']))
+
+/-- in a successful fold every element was processed successfully from some accumulator -/
+theorem foldlM'_step_ok {α β} {f : β → α → Outcome β} {l : List α} {b r : β}
+    (h : foldlM' f b l = .ok r) : ∀ a ∈ l, ∃ b₁ b₂, f b₁ a = .ok b₂ := by
+  induction l generalizing b with
+  | nil => intro a ha; simp at ha
+  | cons x as ih =>
+    rw [foldlM'_cons, bind_eq_ok] at h
+    obtain ⟨b', hb', h⟩ := h
+    intro a ha
+    rcases List.mem_cons.mp ha with rfl | ha
+    · exact ⟨b, b', hb'⟩
+    · exact ih h a ha
+
+theorem forM'_ok {α} {f : α → Outcome Unit} {l : List α} (h : forM' f l = .ok ()) :
+    ∀ a ∈ l, f a = .ok () := by
+  induction l with
+  | nil => intro a ha; simp at ha
+  | cons x as ih =>
+    simp only [forM'] at h
+    intro a ha
+    cases hx : f x with
+    | ok u =>
+      rw [hx] at h
+      rcases List.mem_cons.mp ha with rfl | ha
+      · exact hx
+      · exact ih h a ha
+    | reject e => rw [hx] at h; cases h
+    | crash c => rw [hx] at h; cases h
+
+end Outcome
+
+/-- invariant rule for `List.foldl` -/
+theorem foldl_inv {α β} (P : β → Prop) (f : β → α → β) (l : List α) (b : β) (h0 : P b)
+    (hs : ∀ a ∈ l, ∀ b, P b → P (f b a)) : P (l.foldl f b) := by
+  induction l generalizing b with
+  | nil => exact h0
+  | cons a as ih =>
+    exact ih (f b a) (hs a (by simp) b h0) (fun a' ha' => hs a' (by simp [ha']))
+
+/-! ### association lists -/
+namespace AList
+variable {κ ν : Type} [DecidableEq κ]
+
+/-- a value found in an extended map was there before or is one of the new entries -/
+theorem get_extend_some {m : AList κ ν} {es : List (κ × ν)} {k : κ} {v : ν}
+    (h : get (extend m es) k = some v) : get m k = some v ∨ (k, v) ∈ es := by
+  induction es generalizing m with
+  | nil => exact .inl h
+  | cons e rest ih =>
+    simp only [extend, List.foldl_cons] at h
+    rcases ih (m := set m e.1 e.2) h with h | h
+    · by_cases hk : k = e.1
+      · subst hk
+        rw [get_set_self] at h
+        simp only [Option.some.injEq] at h
+        right; subst h; simp
+      · rw [get_set_ne _ _ hk] at h; exact .inl h
+    · exact .inr (List.mem_cons_of_mem _ h)
+
+end AList
+
+/-! ### the coin map -/
+namespace CoinMap
+
+theorem insertCoin_coins (m : CoinMap) (id : CoinID) (d : CoinDataHeight) (t : Bool) :
+    (m.insertCoin id d t).coins = m.coins.set id d := by
+  simp only [insertCoin]
+  split <;> rfl
+
+theorem getCoin_insertCoin (m : CoinMap) (id : CoinID) (d : CoinDataHeight) (t : Bool) (id' : CoinID) :
+    (m.insertCoin id d t).getCoin id' = if id' = id then some d else m.getCoin id' := by
+  simp only [getCoin, insertCoin_coins]
+  split
+  · next h => subst h; exact AList.get_set_self _ _ _
+  · next h => exact AList.get_set_ne _ _ h
+
+theorem removeCoin_coins {m m' : CoinMap} {id : CoinID} {t : Bool} (h : m.removeCoin id t = .ok m') :
+    m'.coins = m.coins.del id := by
+  unfold removeCoin at h
+  split at h
+  · split at h
+    · simp only at h
+      split at h
+      · cases h
+      · cases h; rfl
+    · cases h; rfl
+  · cases h; rfl
+
+theorem getCoin_removeCoin {m m' : CoinMap} {id : CoinID} {t : Bool} (h : m.removeCoin id t = .ok m')
+    (id' : CoinID) : m'.getCoin id' = if id' = id then none else m.getCoin id' := by
+  simp only [getCoin, removeCoin_coins h]
+  split
+  · next h => subst h; exact AList.get_del_self _ _
+  · next h => exact AList.get_del_ne _ h
+
+/-- removing a list of coins leaves every other key alone -/
+theorem getCoin_removeAll {t : Bool} {ins : List CoinID} {m m' : CoinMap}
+    (h : Outcome.foldlM' (fun (coins : CoinMap) id => coins.removeCoin id t) m ins = .ok m')
+    {k : CoinID} (hk : k ∉ ins) : m'.getCoin k = m.getCoin k := by
+  refine Outcome.foldlM'_inv (fun c => c.getCoin k = m.getCoin k) h rfl ?_
+  intro a ha b b' hb hstep
+  have hne : k ≠ a := fun hka => hk (hka ▸ ha)
+  rw [getCoin_removeCoin hstep, if_neg hne]
+  exact hb
+
+end CoinMap
+
+/-! ### `handleFaucetTx` -/
+
+theorem handleFaucetTx_ok {env : Env} {s s1 : State} {tx : Tx} (h : handleFaucetTx env s tx = .ok s1) :
+    (s.network = .mainnet → env.isGrandfathered tx.hash = true) ∧
+    s.coins.getCoin { txhash := env.fdp tx.hash, index := 0 } = none ∧
+    s1.network = s.network ∧
+    (env.isGrandfathered tx.hash = false →
+      (s1.coins.getCoin { txhash := env.fdp tx.hash, index := 0 }).isSome) ∧
+    (∀ k, (s.coins.getCoin k).isSome → s1.coins.getCoin k = s.coins.getCoin k) := by
+  unfold handleFaucetTx at h
+  simp only at h
+  split at h
+  · cases h
+  · next hnet =>
+    split at h
+    · cases h
+    · next habs =>
+      have hnone : s.coins.getCoin { txhash := env.fdp tx.hash, index := 0 } = none := by
+        cases hg : s.coins.getCoin { txhash := env.fdp tx.hash, index := 0 } with
+        | none => rfl
+        | some v => rw [hg] at habs; simp at habs
+      have hnet' : s.network = .mainnet → env.isGrandfathered tx.hash = true := by
+        intro hm
+        cases hb : env.isGrandfathered tx.hash with
+        | true => rfl
+        | false => rw [hm, hb] at hnet; simp at hnet
+      split at h
+      · next hbug =>
+        cases h
+        refine ⟨hnet', hnone, rfl, ?_, ?_⟩
+        · intro _
+          simp only [CoinMap.getCoin_insertCoin, if_true, Option.isSome_some]
+        · intro k hk
+          simp only [CoinMap.getCoin_insertCoin]
+          split
+          · next hkk => subst hkk; rw [hnone] at hk; simp at hk
+          · rfl
+      · next hbug =>
+        cases h
+        refine ⟨hnet', hnone, rfl, ?_, fun _ _ => rfl⟩
+        intro hf; rw [hf] at hbug; simp at hbug
+
+/-! ### `createNextState` as a fold of `cnsStep` -/
+
+/-- the per-transaction step of `create_next_state` -/
+def cnsStep (env : Env) (tip906 : Bool) (st : State) (tx : Tx) : Outcome State :=
+  (if tx.kind = .faucet then handleFaucetTx env st tx else .ok st).bind fun st1 =>
+  (Outcome.foldlM' (fun (coins : CoinMap) id => coins.removeCoin id tip906) st1.coins tx.inputs).bind fun coins2 =>
+  (tx.baseFee st1.feeMultiplier).bind fun minFee =>
+    if tx.fee < minFee then .reject .insufficientFees
+    else .ok { st1 with coins := coins2,
+                        tips := satAdd128 st1.tips (tx.fee - minFee),
+                        feePool := satAdd128 st1.feePool minFee,
+                        txs := State.insertTx st1.txs tx }
+
+/-- the coin map after all created outputs were inserted -/
+def cnsCoins1 (s : State) (txs : List Tx) (rel : Relevant) (tip906 : Bool) : CoinMap :=
+  txs.foldl (fun (coins : CoinMap) tx =>
+    (List.range tx.outputs.length).foldl (fun coins i =>
+      let id : CoinID := { txhash := tx.hash, index := i % 256 }
+      match rel.get id with
+      | some cd => coins.insertCoin id cd tip906
+      | none => coins) coins) s.coins
+
+theorem createNextState_eq (env : Env) (s : State) (txs : List Tx) (rel : Relevant) (tip906 : Bool) :
+    createNextState env s txs rel tip906 =
+      Outcome.foldlM' (cnsStep env tip906) { s with coins := cnsCoins1 s txs rel tip906 } txs := rfl
+
+theorem cnsCoins1_present {s : State} {txs : List Tx} {rel : Relevant} {t : Bool} {k : CoinID}
+    (hp : (s.coins.getCoin k).isSome) : ((cnsCoins1 s txs rel t).getCoin k).isSome := by
+  unfold cnsCoins1
+  refine foldl_inv (fun (c : CoinMap) => (c.getCoin k).isSome) _ _ _ hp ?_
+  intro tx _ c hc
+  refine foldl_inv (fun (c : CoinMap) => (c.getCoin k).isSome) _ _ _ hc ?_
+  intro i _ c hc
+  simp only
+  split
+  · rw [CoinMap.getCoin_insertCoin]; split
+    · rfl
+    · exact hc
+  · exact hc
+
+theorem cnsCoins1_other {s : State} {txs : List Tx} {rel : Relevant} {t : Bool} {k : CoinID}
+    (hk : ∀ tx ∈ txs, k.txhash ≠ tx.hash) : (cnsCoins1 s txs rel t).getCoin k = s.coins.getCoin k := by
+  unfold cnsCoins1
+  refine foldl_inv (fun (c : CoinMap) => c.getCoin k = s.coins.getCoin k) _ _ _ rfl ?_
+  intro tx htx c hc
+  refine foldl_inv (fun (c : CoinMap) => c.getCoin k = s.coins.getCoin k) _ _ _ hc ?_
+  intro i _ c hc
+  simp only
+  split
+  · rw [CoinMap.getCoin_insertCoin, if_neg]
+    · exact hc
+    · intro hkk; exact hk tx htx (by rw [hkk])
+  · exact hc
+
+theorem cnsStep_ok {env : Env} {t : Bool} {st st' : State} {tx : Tx} (h : cnsStep env t st tx = .ok st') :
+    ∃ st1, (if tx.kind = .faucet then handleFaucetTx env st tx else .ok st) = .ok st1 ∧
+      st'.network = st1.network ∧ ∀ k, k ∉ tx.inputs → st'.coins.getCoin k = st1.coins.getCoin k := by
+  unfold cnsStep at h
+  rw [Outcome.bind_eq_ok] at h
+  obtain ⟨st1, h1, h⟩ := h
+  rw [Outcome.bind_eq_ok] at h
+  obtain ⟨coins2, h2, h⟩ := h
+  rw [Outcome.bind_eq_ok] at h
+  obtain ⟨minFee, _, h⟩ := h
+  split at h
+  · cases h
+  · cases h
+    exact ⟨st1, h1, rfl, fun k hk => CoinMap.getCoin_removeAll h2 hk⟩
+
+theorem cnsStep_network {env : Env} {t : Bool} {st st' : State} {tx : Tx}
+    (h : cnsStep env t st tx = .ok st') : st'.network = st.network := by
+  obtain ⟨st1, h1, hn, _⟩ := cnsStep_ok h
+  split at h1
+  · rw [hn, (handleFaucetTx_ok h1).2.2.1]
+  · cases h1; exact hn
+
+/-- a coin that is present and is not an input of the transaction is left alone by the step -/
+theorem cnsStep_keep {env : Env} {t : Bool} {st st' : State} {tx : Tx}
+    (h : cnsStep env t st tx = .ok st') {k : CoinID} (hk : k ∉ tx.inputs)
+    (hp : (st.coins.getCoin k).isSome) : st'.coins.getCoin k = st.coins.getCoin k := by
+  obtain ⟨st1, h1, _, hc⟩ := cnsStep_ok h
+  rw [hc k hk]
+  split at h1
+  · exact (handleFaucetTx_ok h1).2.2.2.2 k hp
+  · cases h1; rfl
+
+/-- what a successful step tells about a faucet transaction -/
+theorem cnsStep_faucet {env : Env} {t : Bool} {st st' : State} {tx : Tx}
+    (h : cnsStep env t st tx = .ok st') (hf : tx.kind = .faucet) :
+    (st.network = .mainnet → env.isGrandfathered tx.hash = true) ∧
+    st.coins.getCoin { txhash := env.fdp tx.hash, index := 0 } = none ∧
+    (env.isGrandfathered tx.hash = false → { txhash := env.fdp tx.hash, index := 0 } ∉ tx.inputs →
+      (st'.coins.getCoin { txhash := env.fdp tx.hash, index := 0 }).isSome) := by
+  obtain ⟨st1, h1, _, hc⟩ := cnsStep_ok h
+  rw [if_pos hf] at h1
+  obtain ⟨a, b, _, d, _⟩ := handleFaucetTx_ok h1
+  exact ⟨a, b, fun hng hin => by rw [hc _ hin]; exact d hng⟩
+
+theorem cnsFold_network {env : Env} {t : Bool} {st r : State} {l : List Tx}
+    (h : Outcome.foldlM' (cnsStep env t) st l = .ok r) : r.network = st.network :=
+  Outcome.foldlM'_inv (fun b => b.network = st.network) h rfl
+    (fun _ _ _ _ hb hs => (cnsStep_network hs).trans hb)
+
+theorem cnsFold_keep {env : Env} {t : Bool} {st r : State} {l : List Tx}
+    (h : Outcome.foldlM' (cnsStep env t) st l = .ok r) {k : CoinID} (hk : ∀ tx ∈ l, k ∉ tx.inputs)
+    (hp : (st.coins.getCoin k).isSome) : r.coins.getCoin k = st.coins.getCoin k :=
+  Outcome.foldlM'_inv (fun b => b.coins.getCoin k = st.coins.getCoin k) h rfl
+    (fun a ha _ _ hb hs => (cnsStep_keep hs (hk a ha) (by rw [hb]; exact hp)).trans hb)
+
+/-- the state reached just before a given member of the list, and the step taken from it -/
+theorem cnsFold_split {env : Env} {t : Bool} {st r : State} {l₁ l₂ : List Tx} {tx : Tx}
+    (h : Outcome.foldlM' (cnsStep env t) st (l₁ ++ tx :: l₂) = .ok r) :
+    ∃ mid mid', Outcome.foldlM' (cnsStep env t) st l₁ = .ok mid ∧ cnsStep env t mid tx = .ok mid' ∧
+      Outcome.foldlM' (cnsStep env t) mid' l₂ = .ok r := by
+  rw [Outcome.foldlM'_append, Outcome.bind_eq_ok] at h
+  obtain ⟨mid, h1, h⟩ := h
+  rw [Outcome.foldlM'_cons, Outcome.bind_eq_ok] at h
+  obtain ⟨mid', h2, h3⟩ := h
+  exact ⟨mid, mid', h1, h2, h3⟩
+
+/-- a faucet transaction whose marker is present at the start of the fold makes it fail -/
+theorem cnsFold_dup {env : Env} {t : Bool} {st r : State} {l : List Tx} {tx : Tx}
+    (htx : tx ∈ l) (hf : tx.kind = .faucet)
+    (hsep : ∀ t ∈ l, ({ txhash := env.fdp tx.hash, index := 0 } : CoinID) ∉ t.inputs)
+    (hp : (st.coins.getCoin { txhash := env.fdp tx.hash, index := 0 }).isSome) :
+    Outcome.foldlM' (cnsStep env t) st l ≠ .ok r := by
+  intro h
+  obtain ⟨l₁, l₂, rfl⟩ := List.append_of_mem htx
+  obtain ⟨mid, mid', h1, h2, _⟩ := cnsFold_split h
+  have hmid := cnsFold_keep h1 (fun t ht => hsep t (by simp [ht])) hp
+  have hnone := (cnsStep_faucet h2 hf).2.1
+  rw [hmid] at hnone
+  rw [hnone] at hp
+  simp at hp
+
+/-- after a successful fold the marker of every non-grandfathered faucet member is present -/
+theorem cnsFold_marker {env : Env} {t : Bool} {st r : State} {l : List Tx} {tx : Tx}
+    (h : Outcome.foldlM' (cnsStep env t) st l = .ok r)
+    (htx : tx ∈ l) (hf : tx.kind = .faucet) (hng : env.isGrandfathered tx.hash = false)
+    (hsep : ∀ t ∈ l, ({ txhash := env.fdp tx.hash, index := 0 } : CoinID) ∉ t.inputs) :
+    (r.coins.getCoin { txhash := env.fdp tx.hash, index := 0 }).isSome := by
+  obtain ⟨l₁, l₂, rfl⟩ := List.append_of_mem htx
+  obtain ⟨mid, mid', _, h2, h3⟩ := cnsFold_split h
+  have hp := (cnsStep_faucet h2 hf).2.2 hng (hsep tx (by simp))
+  rw [cnsFold_keep h3 (fun t ht => hsep t (by simp [ht])) hp]
+  exact hp
+
+/-! ### `applyBatch` -/
+
+theorem applyBatch_ok {env : Env} {s s' : State} {txs : List Tx} {fb : Header}
+    (h : applyBatch env s txs fb = .ok s') :
+    ∃ rel newStakes next, loadRelevantCoins s txs = .ok rel ∧ loadStakeInfo s txs = .ok newStakes ∧
+      Outcome.forM' (fun tx => checkTxValidity env s (lastHeaderOf s fb) tx rel newStakes) txs = .ok () ∧
+      createNextState env s txs rel s.tip906 = .ok next ∧ s'.coins = next.coins := by
+  unfold applyBatch at h
+  rw [Outcome.bind_eq_ok] at h
+  obtain ⟨rel, h1, h⟩ := h
+  rw [Outcome.bind_eq_ok] at h
+  obtain ⟨ns, h2, h⟩ := h
+  simp only at h
+  rw [Outcome.bind_eq_ok] at h
+  obtain ⟨u, h3, h⟩ := h
+  rw [Outcome.bind_eq_ok] at h
+  obtain ⟨sp, _, h⟩ := h
+  rw [Outcome.bind_eq_ok] at h
+  obtain ⟨next, h5, h⟩ := h
+  cases h
+  exact ⟨rel, ns, next, h1, h2, h3, h5, rfl⟩
+
+/-- an element occurring at least twice: one occurrence, and another one after it -/
+theorem twice_split {α} [DecidableEq α] {l : List α} {x : α} (h : (l.filter (· = x)).length ≥ 2) :
+    ∃ l₁ l₂, l = l₁ ++ x :: l₂ ∧ x ∈ l₂ := by
+  induction l with
+  | nil => simp at h
+  | cons a as ih =>
+    by_cases hax : a = x
+    · subst hax
+      simp only [List.filter_cons, decide_true, if_true, List.length_cons, ge_iff_le] at h
+      have hpos : 0 < (as.filter (· = a)).length := by omega
+      obtain ⟨y, hy⟩ := List.exists_mem_of_length_pos hpos
+      have := List.mem_filter.mp hy
+      have hya : y = a := by simpa using this.2
+      exact ⟨[], as, rfl, hya ▸ this.1⟩
+    · simp only [List.filter_cons, hax, decide_false] at h
+      obtain ⟨l₁, l₂, rfl, hm⟩ := ih h
+      exact ⟨a :: l₁, l₂, rfl, hm⟩
+
+/-! ### inputs of an accepted batch carry a covenant with the coin's hash -/
+
+theorem mem_outputCoinsFromTx {tx : Tx} {h : Nat} {e : CoinID × CoinDataHeight}
+    (he : e ∈ outputCoinsFromTx tx h) : e.1.txhash = tx.hash := by
+  unfold outputCoinsFromTx at he
+  rw [List.mem_filterMap] at he
+  obtain ⟨⟨o, i⟩, _, hoi⟩ := he
+  simp only [Option.ite_none_right_eq_some] at hoi
+  obtain ⟨_, hoi⟩ := hoi
+  cases hoi
+  rfl
+
+/-- every coin `load_relevant_coins` returns is created by the batch or read from the coin set -/
+theorem loadRelevantCoins_get {s : State} {txs : List Tx} {rel : Relevant}
+    (h : loadRelevantCoins s txs = .ok rel) {k : CoinID} {v : CoinDataHeight}
+    (hg : AList.get rel k = some v) : (∃ t ∈ txs, k.txhash = t.hash) ∨ s.coins.getCoin k = some v := by
+  unfold loadRelevantCoins at h
+  split at h
+  · cases h
+  · simp only at h
+    rw [Outcome.bind_eq_ok] at h
+    obtain ⟨disk, hdisk, h⟩ := h
+    split at h
+    · cases h
+      rcases AList.get_extend_some hg with hc | hd
+      · left
+        revert hc
+        generalize hcr : List.foldl (fun (acc : Relevant) tx => AList.extend acc (outputCoinsFromTx tx s.height)) [] txs = cr
+        have : ∀ k v, AList.get cr k = some v → ∃ t ∈ txs, k.txhash = t.hash := by
+          rw [← hcr]
+          refine foldl_inv (fun (acc : Relevant) => ∀ k v, AList.get acc k = some v → ∃ t ∈ txs, k.txhash = t.hash)
+            _ _ _ ?_ ?_
+          · intro k v hkv; simp [AList.get] at hkv
+          · intro tx htx acc hacc k v hkv
+            rcases AList.get_extend_some hkv with h1 | h1
+            · exact hacc k v h1
+            · exact ⟨tx, htx, mem_outputCoinsFromTx h1⟩
+        exact this k v
+      · right
+        have hinv : ∀ e ∈ disk, s.coins.getCoin e.1 = some e.2 := by
+          refine Outcome.foldlM'_inv (fun (acc : Relevant) => ∀ e ∈ acc, s.coins.getCoin e.1 = some e.2)
+            hdisk ?_ ?_
+          · intro e he; simp at he
+          · intro inp _ acc acc' hacc hstep
+            split at hstep
+            · cases hstep; exact hacc
+            · split at hstep
+              · next c hc =>
+                cases hstep
+                intro e he
+                simp only [AList.set, List.mem_cons] at he
+                rcases he with rfl | he
+                · exact hc
+                · exact hacc e (AList.mem_del.mp he).1
+              · cases hstep
+        exact hinv (k, v) (List.mem_reverse.mp hd)
+    · cases h
+
+theorem findCovenant_none {tx : Tx} {h : Hash} (hn : h ∉ tx.covHashes) : tx.findCovenant h = none := by
+  unfold Tx.findCovenant
+  rw [Option.map_eq_none_iff, List.find?_eq_none]
+  intro ⟨a, b⟩ hx
+  rw [List.mem_reverse] at hx
+  have := (List.of_mem_zip hx).1
+  simp only [decide_eq_true_eq]
+  intro hab; exact hn (hab ▸ this)
+
+/-- an input of a valid transaction is a relevant coin whose covenant hash the transaction supplies -/
+theorem checkTxValidity_input {env : Env} {s : State} {lh : Header} {tx : Tx} {rel : Relevant}
+    {ns : AList Hash StakeDoc} (h : checkTxValidity env s lh tx rel ns = .ok ())
+    {k : CoinID} (hk : k ∈ tx.inputs) :
+    ∃ coin, AList.get rel k = some coin ∧ tx.findCovenant coin.coinData.covhash ≠ none := by
+  unfold checkTxValidity at h
+  simp only at h
+  rw [Outcome.bind_eq_ok] at h
+  obtain ⟨inCoins, hgo, _⟩ := h
+  obtain ⟨i, hi⟩ := List.mem_iff_getElem?.mp hk
+  have hmem : (k, i) ∈ tx.inputs.zipIdx := List.mem_zipIdx_iff_getElem?.mpr hi
+  obtain ⟨b₁, b₂, hstep⟩ := Outcome.foldlM'_step_ok hgo (k, i) hmem
+  simp only at hstep
+  split at hstep
+  · cases hstep
+  · split at hstep
+    · cases hstep
+    · next coin hcoin =>
+      refine ⟨coin, hcoin, ?_⟩
+      intro hnone
+      rw [Outcome.bind_eq_ok] at hstep
+      obtain ⟨u, hv, _⟩ := hstep
+      unfold validateTxScripts at hv
+      rw [hnone] at hv
+      cases hv
+
 end Mel
